@@ -869,6 +869,13 @@ class Process(StateMachine, persistence.Savable, metaclass=ProcessStateMachineMe
     @super_check
     def on_finish(self, result: Any, successful: bool) -> None:
         """Entering the FINISHED state."""
+        if self.future().cancelled():
+            # Cancelling the future is a request to kill the process (see ``init``) which has not been acted upon yet
+            # because the step completed first: honour it now rather than finishing
+            msg = MessageBuilder.kill('Killed by future being cancelled')
+            state_cls = self.get_states_map()[process_states.ProcessState.KILLED]
+            raise StateEntryFailed(state_cls(self, msg=msg))
+
         if successful:
             validation_error = self.spec().outputs.validate(self.outputs)
             if validation_error:
